@@ -4,6 +4,7 @@ package listener
 
 import (
 	"net"
+	"sync"
 	"time"
 
 	"github.com/kelindar/rate"
@@ -31,5 +32,29 @@ func VerifNewListener(root net.Listener, config Config) *Listener {
 		closing:      make(chan struct{}),
 		readTimeout:  noTimeout,
 		config:       config,
+	}
+}
+
+// VerifServe is the body of one iteration of Serve's accept loop, run synchronously on the caller's
+// goroutine: the real serve (sniff with every registered matcher, hand the connection over or close it).
+func (m *Listener) VerifServe(c net.Conn) {
+	var wg sync.WaitGroup
+	wg.Add(1)
+	m.serve(c, m.closing, &wg)
+}
+
+// VerifTake returns, without blocking, the connections queued for a listener returned by Match.
+func VerifTake(l net.Listener) (out []net.Conn) {
+	ml, ok := l.(muxListener)
+	if !ok {
+		return nil
+	}
+	for {
+		select {
+		case c := <-ml.connections:
+			out = append(out, c)
+		default:
+			return
+		}
 	}
 }
